@@ -18,7 +18,8 @@
 
    Abstract body values:   none | mark(k): set by call k | err(k): rendering of the HTTP error raised
    by call k | e500: rendering of a fresh HTTPInternalServerError | stext(k): text of the HTTP status
-   raised by call k | hset(k): set by the error handler invoked as call k.
+   raised by call k | hset(k): set by the error handler invoked as call k | hbad(k): media set by the
+   error handler invoked as call k that no media handler can serialise.
    How an HTTP error is rendered for a given Accept header is ErrorRender.tla's business. *)
 EXTENDS Integers, Sequences, FiniteSets, TLC
 
@@ -235,17 +236,28 @@ RespDone ==
 (* ------------------------ rendering the body --------------------------- *)
 RenderCall(act, cls) ==
     /\ phase = "render"
-    /\ \/ /\ act = "ret" /\ phase' = "end" /\ UNCHANGED <<pend, calls, body, faults>>
-       \/ /\ act = "raise" /\ body.k = "mark"             \* only an application-provided body can fail to serialise
+    /\ \/ /\ act = "ret" /\ body.k # "hbad" /\ phase' = "end" /\ UNCHANGED <<pend, calls, body, faults>>
+       \/ /\ act = "raise" /\ body.k = "mark"             \* an application-provided body may fail to serialise
           /\ calls' = Append(calls, Call("render", 0, "raise", cls, FALSE, FALSE, 0))
           /\ pend' = [cls |-> cls, idx |-> Idx, back |-> "end"] /\ phase' = "handle"
           /\ faults' = faults + 1 /\ UNCHANGED body
     /\ UNCHANGED <<cfgv, reg, i, complete, succeeded, hasres, dep, left, status, hdrs, vary, escaped>>
 
+RenderBad(cls) ==       \* what a "setbad" handler left on the response cannot be serialised: rendering must raise
+    /\ phase = "render" /\ body.k = "hbad"
+    /\ calls' = Append(calls, Call("render", 0, "raise", cls, FALSE, FALSE, 0))
+    /\ pend' = [cls |-> cls, idx |-> Idx, back |-> "end"] /\ phase' = "handle"
+    /\ UNCHANGED <<cfgv, reg, i, complete, succeeded, hasres, dep, left, faults, respv>>
+
 (* ---------------------- handling a raised exception -------------------- *)
-(* Named deviation (DESIGN 6, F10): the body an error handler composes for an exception raised
-   while the body is rendered is not sent; status and headers are. *)
-RenderPhaseFailureDropsBody(b) == NoBody
+(* An exception raised while the body is rendered is handled like any other and the response the
+   handler composed is rendered in turn.  Wrong design "render_drops_body" (DESIGN 6, F10, the
+   behaviour before the fix): status and headers of the error go out, its body does not.
+   If that second rendering fails as well the response goes out without a body (named fallback;
+   what exactly is sent then is model detail, not demanded by the property). *)
+SecondRenderFailureDropsBody == NoBody
+AfterRenderFailure(b) == IF WrongDesign = "render_drops_body" THEN NoBody
+                         ELSE IF b.k = "hbad" THEN SecondRenderFailureDropsBody ELSE b
 
 ResetBeforeHandler == IF WrongDesign = "no_reset" THEN body ELSE NoBody
 
@@ -257,6 +269,7 @@ Effect(h) ==
           [] beh = "defErr"    -> r(StatusOf[pend.cls], [k |-> "err", id |-> pend.idx], hdrs \cup {pend.idx}, TRUE, FALSE)
           [] beh = "defStatus" -> r(StatusOf[pend.cls], [k |-> "stext", id |-> pend.idx], hdrs \cup {pend.idx}, vary, FALSE)
           [] beh = "set"       -> r(SetStatus(h), [k |-> "hset", id |-> Idx], hdrs, vary, FALSE)
+          [] beh = "setbad"    -> r(SetStatus(h), [k |-> "hbad", id |-> Idx], hdrs, vary, FALSE)
           [] beh = "noop"      -> r(status, b0, hdrs, vary, FALSE)
           [] beh = "http"      -> r(HandlerErrStatus, [k |-> "err", id |-> Idx], hdrs \cup {Idx}, TRUE, FALSE)
           [] beh = "status"    -> r(HandlerStStatus, [k |-> "stext", id |-> Idx], hdrs \cup {Idx}, vary, FALSE)
@@ -275,9 +288,12 @@ HandleCall ==
                                                /\ UNCHANGED succeeded
                      [] pend.back = "loop"  -> /\ phase' = "resp" /\ body' = e.bd /\ succeeded' = FALSE
                                                /\ UNCHANGED left
-                     [] pend.back = "end"   -> /\ phase' = "end" /\ body' = RenderPhaseFailureDropsBody(e.bd)
+                     [] pend.back = "end"   -> /\ phase' = "end" /\ body' = AfterRenderFailure(e.bd)
                                                /\ succeeded' = FALSE /\ UNCHANGED left
-    /\ UNCHANGED <<cfgv, reg, i, complete, hasres, dep, pend, faults>>
+    /\ pend' = (IF pend.back = "end" /\ ~Effect(Handler(pend.cls)).esc
+                THEN [pend EXCEPT !.back = IF Effect(Handler(pend.cls)).bd.k = "hbad" THEN "fallback" ELSE "rendered"]
+                ELSE pend)
+    /\ UNCHANGED <<cfgv, reg, i, complete, hasres, dep, faults>>
 
 (* ------------------------------------------------------------------------ *)
 ActCls(acts) == {<<a, "">> : a \in acts \ {"raise"}} \cup
@@ -288,7 +304,7 @@ Next == \/ \E c \in RegClasses, b \in RegBehs : AddHandler(c, b)
         \/ \E p \in ActCls({"ret", "complete", "raise"}) : ReqCall(p[1], p[2]) \/ RsrcCall(p[1], p[2])
         \/ \E p \in ActCls({"ret", "raise"}) : BeforeCall(p[1], p[2]) \/ ResponderCall(p[1], p[2])
                                                \/ AfterCall(p[1], p[2]) \/ RespCall(p[1], p[2])
-        \/ RenderCall("ret", "") \/ \E c \in RenderClasses : RenderCall("raise", c)
+        \/ RenderCall("ret", "") \/ \E c \in RenderClasses : RenderCall("raise", c) \/ RenderBad(c)
         \/ ReqSkip \/ ReqDone \/ Route \/ RsrcSkip \/ RsrcDone \/ BeforeDone \/ NotFound \/ AfterDone \/ RespDone
         \/ HandleCall
 
@@ -358,12 +374,14 @@ EveryRaiseHandled == \A k \in Ix : (K(k).act = "raise" /\ K(k).site # "handler")
 StaleBodyDiscarded == Finished /\ body.k = "mark" => \A k \in Ix : K(k).site = "handler" => k < body.id
 NeverEscapesByDefault == escaped => \E k \in Ix : K(k).site = "handler" /\ reg[K(k).c].beh = "other"
 LastCall == calls[Len(calls)]
-JustHandled == calls # <<>> /\ LastCall.site = "handler" /\ ~(phase = "end" /\ pend.back = "end")
+JustHandled == calls # <<>> /\ LastCall.site = "handler" /\ pend.back # "fallback"
 HandlerRaisedErrorIsRendered ==
     /\ JustHandled /\ reg[LastCall.c].beh = "http"
           => status = HandlerErrStatus /\ body = [k |-> "err", id |-> Len(calls)] /\ Len(calls) \in hdrs /\ vary
     /\ JustHandled /\ reg[LastCall.c].beh = "status"
           => status = HandlerStStatus /\ body = [k |-> "stext", id |-> Len(calls)] /\ Len(calls) \in hdrs
+    /\ JustHandled /\ reg[LastCall.c].beh = "set"
+          => status = SetStatus(LastCall.c) /\ body = [k |-> "hset", id |-> Len(calls)]
 DefaultRendering ==
     /\ JustHandled /\ reg[LastCall.c].beh = "defErr"
           => status = StatusOf[LastCall.cls] /\ body = [k |-> "err", id |-> LastCall.x] /\ LastCall.x \in hdrs /\ vary
